@@ -298,6 +298,8 @@ def run(ctx):
     ctx.rule("R13.x", "the instance-level lookup follows the class: Parameters.objects('existing') interpreted twice on one instance (its private namespace built by the real "
                       "_InstancePrivate.__init__) with the class-level lookup changed in between returns the class-level Parameters as they are at each call, overlaid with the instance's own", floor=1)
     existing_objects_follow_the_class(ctx, "R13.x")
+    ctx.rule("R13.y", "readers do not edit the lookups: no function of param edits in place a local name bound to the result of `<x>.param.objects(...)` (which may be the live lookup of the class)", floor=1)
+    lookups_are_not_edited_by_their_readers(ctx, "R13.y")
 
 
 def existing_objects_follow_the_class(ctx, rule):
@@ -355,3 +357,46 @@ def existing_objects_follow_the_class(ctx, rule):
                  input="p.x = 1; p.param.values(); A.param.add_parameter('z', Number(3)) -> 'z' missing from p.param.values() and repr(p)")
     else:
         ctx.ok(rule, f, f.node, "objects('existing') merges the class-level lookup as it is at every call with the instance's own Parameter objects")
+
+
+def lookups_are_not_edited_by_their_readers(ctx, rule):
+    """`<x>.param.objects(...)` may hand out the LIVE lookup of the class (objects(instance=False) always does, objects('existing')
+    does for an instance without per-instance Parameters).  No function of param binds that result to a name and then
+    edits it in place (pop / del / item assignment / update / clear / setdefault): that removes or adds entries of the
+    class's `.param` namespace for everybody."""
+    n, bad = 0, []
+    MUT = ("pop", "popitem", "clear", "update", "setdefault", "__delitem__", "__setitem__")
+    for f in ctx.repo.all_funcs("param"):
+        live = {}
+        for st in ast.walk(f.node):
+            if isinstance(st, ast.Assign) and isinstance(st.value, ast.Call) and isinstance(st.value.func, ast.Attribute) and st.value.func.attr == "objects" \
+                    and norm(st.value.func.value).endswith(".param"):
+                for t in st.targets:
+                    if isinstance(t, ast.Name):
+                        live[t.id] = st
+        if not live:
+            continue
+        n += len(live)
+        for st in ast.walk(f.node):
+            name = None
+            if isinstance(st, ast.Call) and isinstance(st.func, ast.Attribute) and st.func.attr in MUT and isinstance(st.func.value, ast.Name):
+                name = st.func.value.id
+            if isinstance(st, (ast.Assign, ast.AugAssign)):
+                for t in (st.targets if isinstance(st, ast.Assign) else [st.target]):
+                    if isinstance(t, ast.Subscript) and isinstance(t.value, ast.Name):
+                        name = t.value.id
+            if isinstance(st, ast.Delete):
+                for t in st.targets:
+                    if isinstance(t, ast.Subscript) and isinstance(t.value, ast.Name):
+                        name = t.value.id
+            if name in live:
+                bad.append((f, st, name))
+    ctx.require(n >= 1, "no local name bound to a `.param.objects(...)` result found in param")
+    if bad:
+        f, st, name = bad[0]
+        ctx.fail(rule, f, st, "%s edits `%s` in place (`%s`), a name bound to the result of `.param.objects(...)`: that can be the live lookup of the class, so the entry vanishes from (or appears "
+                              "in) the class's `.param` namespace -- `.param[name]`, values(), serialization and instance creation break although getattr still works" % (
+                                  f.qualname.split(".", 2)[-1], name, norm(st)[:50]), key="%s::edits-the-live-lookup" % f.qualname,
+                 input="%params on an instance without per-instance Parameters removes `name` from the class's .param")
+    else:
+        ctx.ok(rule, ctx.repo.func("param.parameterized.Parameters.objects"), None, "none of the %d local names bound to a `.param.objects(...)` result is edited in place" % n)
